@@ -448,8 +448,20 @@ def _count_of_helper(t):
             val = strip(e[2])
             if isinstance(val, tuple) and val[0] == 'adt':
                 inner = strip(val[3][0][1])
+                c = None
                 if isinstance(inner, tuple) and inner[0] == 'cast' and inner[1] == 'u32':
                     c = strip(inner[2])
+                else:
+                    # the Ok payload of a lossless conversion: `match u32::try_from(len) { Ok(n) => Compact(n), .. }`
+                    x = inner
+                    for _ in range(4):
+                        if isinstance(x, tuple) and x and x[0] in ('field', 'unwrapped', 'tried'):
+                            x = strip(x[1])
+                        else:
+                            break
+                    if isinstance(x, tuple) and x and x[0] == 'call' and x[1] in ('try_from', 'try_into') and x[3]:
+                        c = strip(x[3][0])
+                if c is not None:
                     if isinstance(c, tuple) and c[0] == 'call' and c[1] == 'len':
                         return strip(c[3][0])
                     return c
